@@ -176,10 +176,17 @@ func runCase(r *hx.Run, c hx.Case) {
 			if len(f) > 3 {
 				src = f[3]
 			}
-			fs = append(fs, bytex.FileSpec{Name: name, Enc: f[0], Prod: bytex.Producer{Chunks: chunk(content)}, Src: src})
+			pre := ""
+			if len(f) > 4 {
+				pre = f[4] // a Content-Transfer-Encoding header pre-set on the File
+			}
+			fs = append(fs, bytex.FileSpec{Name: name, Enc: f[0], Prod: bytex.Producer{Chunks: chunk(content)}, Src: src, PreCTE: pre})
 			e := f[0]
 			if e == "" {
 				e = "base64"
+			}
+			if pre != "" {
+				e = pre // the header on the File wins: the leaf must be announced AND encoded that way
 			}
 			want = append(want, leafWant{kind: kind, enc: e, name: name, content: content})
 		}
@@ -225,6 +232,22 @@ func runCase(r *hx.Run, c hx.Case) {
 	// the same message rendered again (the boundaries of the first render are cached in the Msg now): the same
 	// leaves, and byte-exact against the model with the cached boundaries
 	bm, br, ba := bytex.Boundaries(out)
+	if len(c.Args) > 6 && c.Args[6] == "flip" {
+		// between the renders the caller changes the encoding fields: File.Enc of every file (the header cached on
+		// the File by the first render keeps governing header AND body: the leaves must not change) and the
+		// encoding of every part (no cache: the part is announced and encoded the new way)
+		other := map[string]string{"": "8bit", "base64": "8bit", "8bit": "base64", "quoted-printable": "base64"}
+		for _, f := range append(append([]*mail.File(nil), m.GetEmbeds()...), m.GetAttachments()...) {
+			f.Enc = mail.Encoding(other[string(f.Enc)])
+		}
+		want = append([]leafWant(nil), want...)
+		for i, p := range m.GetParts() {
+			if i < len(want) && want[i].kind == "part" && want[i].enc != "base64" {
+				p.SetEncoding(mail.EncodingB64)
+				want[i].enc = "base64"
+			}
+		}
+	}
 	desc2 := bytex.Describe(m, &spec, [3]string{bm, br, ba}, nil)
 	sink2 := &bytex.Sink{K: -1}
 	_, werr2, pan2 := bytex.SafeWriteTo(m, sink2)
@@ -430,6 +453,34 @@ func Run(r *hx.Run, replay []hx.Case) {
 			var ps []string
 			ps = append(ps, ":"+hx.Hex(txt[i]))
 			runCase(r, hx.Case{ID: r.NewID(), Kind: "c01", Args: []string{"-", "inf", me, strings.Join(ps, ","), "-", "-"}})
+		}
+	}
+	// a Content-Transfer-Encoding header pre-set on the File (every encoding, equal to / different from File.Enc),
+	// and encoding fields changed between the two renders
+	{
+		k := 0
+		for _, pre := range []string{"", "base64", "8bit", "quoted-printable"} {
+			for _, enc := range []string{"", "base64", "8bit"} {
+				for _, flip := range []string{"", "flip"} {
+					if pre == "" && flip == "" {
+						continue // covered above
+					}
+					tcontent := txt[k%len(txt)]
+					bcontent := bin[k%len(bin)]
+					ec, ac := bcontent, tcontent
+					if pre == "8bit" || pre == "quoted-printable" || (pre == "" && enc == "8bit") {
+						ec = tcontent
+					}
+					es := enc + ":" + hx.Hex([]byte("logo.png")) + ":" + hx.Hex(ec) + "::" + pre
+					as := enc + ":" + hx.Hex([]byte(names[k%len(names)])) + ":" + hx.Hex(ac) + "::" + pre
+					args := []string{"-", "inf", encs[k%3], ":" + hx.Hex(txt[(k+1)%len(txt)]) + "," + "base64:" + hx.Hex(txt[(k+2)%len(txt)]), es, as}
+					if flip != "" {
+						args = append(args, flip)
+					}
+					runCase(r, hx.Case{ID: r.NewID(), Kind: "c01", Args: args})
+					k++
+				}
+			}
 		}
 	}
 	genScripts(r, thorough)
